@@ -67,11 +67,11 @@ func emptyLen(t *testing.T) int {
 func (w *World) proposeRound(res *vh.Result, tr *vh.Trace, src string, cands []*Built, pred int, cleanup bool) {
 	mp := w.bc.GetMemPool()
 	byHash := map[util.Uint256]int{}
-	var txs []map[string]any
+	txs := []map[string]any{}
 	var objs []*transaction.Transaction
 	verified := mp.GetVerifiedTransactions()
 	for _, tx := range verified {
-		enc, cell := "?", any(nil)
+		enc, cell := "?", any(map[string]any{})
 		if b := w.offered[tx.Hash()]; b != nil {
 			enc, cell = b.Cell.Enc, b.Cell
 		}
@@ -132,7 +132,7 @@ func (w *World) proposeRound(res *vh.Result, tr *vh.Trace, src string, cands []*
 		w.t.Fatalf("proposal panic: %v", paniced)
 	}
 	ev["sel"], ev["wiresize"], ev["accepted"], ev["err"] = ids(sel), wire, accepted, errS
-	var culprits []int
+	culprits := []int{}
 	for _, tx := range sel {
 		id := byHash[tx.Hash()]
 		if !txs[id-1]["stable"].(bool) {
@@ -206,7 +206,7 @@ func runPacks(t *testing.T, res *vh.Result, tr *vh.Trace, cases []packCase, r *r
 		p.Rich = true
 		empty := emptyLen(t)
 		p.MaxTx = uint16(k.maxtx)
-		p.MaxBlkSize = uint32(empty + k.maxsize*packUnit + packUnit/2)
+		p.MaxBlkSize = uint32(empty + k.maxsize*packUnit) // exactly what the model allows
 		p.MaxSysFee = int64(k.maxsys) * packSysUnit
 		w := NewWorld(t, p)
 		tr.Emit(map[string]any{"event": "world", "params": p, "height": w.bc.BlockHeight(), "empty_block": empty})
@@ -219,9 +219,19 @@ func runPacks(t *testing.T, res *vh.Result, tr *vh.Trace, cases []packCase, r *r
 		for ci, c := range cs {
 			var cands []*Built
 			ok := true
+			// every third case a few bytes are added to one transaction: the model's prediction no longer applies, but the
+			// real block must stay within the limit byte-exactly
+			tight, pred := -1, c.Sel
+			if len(c.Pool) > 0 && r.Intn(3) == 0 {
+				tight, pred = r.Intn(len(c.Pool)), -1
+			}
 			for i, sh := range c.Pool {
+				size := sh.Size * packUnit
+				if i == tight {
+					size += 1 + r.Intn(40)
+				}
 				b, err := w.Build(validCell, ci*10+i, w.bc.BlockHeight(), BuildOpts{Sender: w.acc[senders[(ci+i)%len(senders)]],
-					SysFee: int64(sh.Sysfee) * packSysUnit, SysFeeSet: true, TargetSize: sh.Size * packUnit,
+					SysFee: int64(sh.Sysfee) * packSysUnit, SysFeeSet: true, TargetSize: size,
 					ExtraFeePerByte: int64(len(c.Pool)-i) * 3000})
 				if err != nil {
 					t.Fatalf("pack case: %v", err)
@@ -238,7 +248,7 @@ func runPacks(t *testing.T, res *vh.Result, tr *vh.Trace, cases []packCase, r *r
 				}
 				continue
 			}
-			w.proposeRound(res, tr, fmt.Sprintf("pack-%d-%d", gi, ci), cands, c.Sel, true)
+			w.proposeRound(res, tr, fmt.Sprintf("pack-%d-%d", gi, ci), cands, pred, true)
 		}
 		res.Traces++
 		w.Close()
